@@ -299,7 +299,12 @@ def run_case(ctx, desc):
         sub, lst = desc["registry"][desc["dseed"] % len(desc["registry"])]
         nm0 = lst[desc["dseed"] % len(lst)][0]
         newname = nm0 + "_new"
-        ds[newname] = (ds[nm0].dims, ds[nm0].values * 2 + 0.25)
+        if ds[nm0].ndim >= 2 and desc["dseed"] % 2:
+            # the replacement sits at the same position but is stored with its dimensions in another order (as a product
+            # dx * dy comes out): the same slot
+            ds[newname] = (ds[nm0].dims[::-1], (ds[nm0].values * 2 + 0.25).T)
+        else:
+            ds[newname] = (ds[nm0].dims, ds[nm0].values * 2 + 0.25)
         ctx.judged(("requery-after-overwrite", level, len(q)), True)
         try:
             g.set_metrics(tuple(sub), newname, overwrite=True)
